@@ -1648,6 +1648,7 @@ pub fn gen_c12(rng: &mut Rng, tier: &str, out: &mut Out) {
         }
     }
     prefix_disorder_cases(out, rng, th);
+    lib_ops(out, rng, th, "order");
     // F5 anchor: endline truncated to 0 with a real original range
     let text = b"o.A -> a:\n    5:4294967296:void x():1:3 -> m\n";
     let bytes = crate::proto::cur::write_cache_safe(text);
@@ -1804,6 +1805,157 @@ fn many_class_sig_ops(out: &mut Out, n: usize) {
     out.count("many_class_signature_runs");
 }
 
+/// `LIB` operations: the std / leb128 functions mirrored by the Lean model, compared directly.
+/// `which`: "text" (utf8, trim, lines, num, dec, split), "order" (cmp, bs, leb).
+pub fn lib_ops(out: &mut Out, rng: &mut Rng, th: bool, which: &str) {
+    let ws: &[&str] = &["\t", "\n", "\u{b}", "\u{c}", "\r", " ", "\u{85}", "\u{a0}", "\u{1680}", "\u{2000}", "\u{2003}", "\u{200a}", "\u{2028}", "\u{2029}",
+        "\u{202f}", "\u{205f}", "\u{3000}", "\u{200b}", "\u{feff}", "\u{180e}", "\u{1c}", "\u{1f}", "\u{2060}", "a", "é", "\u{e2}", "日", "\u{1D49C}", "\u{0}"];
+    if which == "text" {
+        // white space: every pair / triple around a letter
+        for a in ws {
+            for b in ws {
+                out.d(format!("LIB trim {}", hxs(&format!("{}{}", a, b))));
+                out.d(format!("LIB trim {}", hxs(&format!("{}x{}", a, b))));
+                if th {
+                    for c in ws {
+                        out.d(format!("LIB trim {}", hxs(&format!("{}{}x{}", a, b, c))));
+                    }
+                }
+            }
+        }
+        // UTF-8 validity: all strings of <= 3 bytes over the boundary bytes of Table 3-7, longer random ones
+        let bytes: &[u8] = &[0x00, 0x41, 0x7f, 0x80, 0x8f, 0x90, 0x9f, 0xa0, 0xbf, 0xc0, 0xc1, 0xc2, 0xdf, 0xe0, 0xe1, 0xec, 0xed, 0xee, 0xef, 0xf0, 0xf1, 0xf3, 0xf4, 0xf5, 0xff];
+        for &a in bytes {
+            out.d(format!("LIB utf8 {}", hx(&[a])));
+            for &b in bytes {
+                out.d(format!("LIB utf8 {}", hx(&[a, b])));
+                for &c in bytes {
+                    out.d(format!("LIB utf8 {}", hx(&[a, b, c])));
+                    if th || (a >= 0xf0 && a <= 0xf4) {
+                        for &d in &[0x80u8, 0xbf, 0x41, 0xc2] {
+                            out.d(format!("LIB utf8 {}", hx(&[a, b, c, d])));
+                        }
+                    }
+                }
+            }
+        }
+        for _ in 0..(if th { 20000 } else { 2000 }) {
+            let n = rng.below(12);
+            let b: Vec<u8> = (0..n).map(|_| rng.pick(bytes)).collect();
+            out.d(format!("LIB utf8 {}", hx(&b)));
+        }
+        // lines: all strings of <= 5 symbols over {a, \r, \n}
+        let alpha: &[&str] = &["a", "\r", "\n", "é"];
+        let mut idx: Vec<usize> = vec![];
+        loop {
+            let s: String = idx.iter().map(|&i| alpha[i]).collect();
+            out.d(format!("LIB lines {}", hxs(&s)));
+            let mut p = idx.len();
+            let mut grown = false;
+            loop {
+                if p == 0 {
+                    idx = vec![0; idx.len() + 1];
+                    grown = true;
+                    break;
+                }
+                p -= 1;
+                if idx[p] + 1 < alpha.len() {
+                    idx[p] += 1;
+                    for q in p + 1..idx.len() {
+                        idx[q] = 0;
+                    }
+                    break;
+                }
+            }
+            if grown && idx.len() > (if th { 7 } else { 5 }) {
+                break;
+            }
+        }
+        // numbers
+        for s in ["", "0", "00", "+0", "+", "-", "-0", "-1", "+1", " 1", "1 ", "1_0", "0x10", "1e3", "١", "²", "18446744073709551615", "18446744073709551616", "018446744073709551615",
+                  "+18446744073709551615", "4294967295", "4294967296", "+4294967295", "99999999999999999999999999", "000000000000000000000000000000000000007", "1\u{0}", "１"] {
+            out.d(format!("LIB num {}", hxs(s)));
+        }
+        for _ in 0..(if th { 5000 } else { 500 }) {
+            let n = rng.below(24);
+            let s: String = (0..n).map(|_| rng.pick(&['0', '1', '9', '+', '-', ' ', '5', '٣'])).collect();
+            out.d(format!("LIB num {}", hxs(&s)));
+            out.d(format!("LIB dec {}", rng.next() >> rng.below(64)));
+        }
+        for n in [0u64, 1, 9, 10, 99, 100, u32::MAX as u64, u32::MAX as u64 + 1, u64::MAX, u64::MAX - 1] {
+            out.d(format!("LIB dec {}", n));
+        }
+        // split_once / rsplit_once / split_once(": ")
+        for _ in 0..(if th { 20000 } else { 2000 }) {
+            let n = rng.below(10);
+            let s: String = (0..n).map(|_| rng.pick(&[":", " ", ".", "(", "a", "é", ": ", "$"])).collect::<Vec<_>>().concat();
+            out.d(format!("LIB split {} {}", hxs(&s), hxs(rng.pick(&[":", ".", "(", " ", "$"]))));
+        }
+    } else {
+        // byte order = str::cmp, tuples
+        let pool: &[&str] = &["", "a", "a.", "a$", "a\u{0}", "b", "é", "\u{e8}", "\u{ffff}", "\u{10000}", "\u{e000}", "日", "aa", "a\u{7f}", "a\u{80}", "\u{7f}", "\u{80}", "A"];
+        for x in pool {
+            for y in pool {
+                out.d(format!("LIB cmp {} {}", hxs(x), hxs(y)));
+            }
+        }
+        // binary_search_by on arbitrary comparators: all patterns of length <= 7 (quick) / 9, random longer ones
+        let maxn = if th { 9 } else { 7 };
+        for n in 0..=maxn {
+            let total = 3usize.pow(n as u32);
+            for mut code in 0..total {
+                let mut pat = String::from(".");
+                for _ in 0..n {
+                    pat.push(['L', 'E', 'G'][code % 3]);
+                    code /= 3;
+                }
+                out.d(format!("LIB bs {}", pat));
+            }
+        }
+        for _ in 0..(if th { 40000 } else { 4000 }) {
+            let n = rng.range(8, 70);
+            let cut = rng.below(n + 1);
+            let mut pat = String::from(".");
+            for i in 0..n {
+                // mostly sorted (L…L E…E G…G) with noise
+                let c = if rng.pct(85) { if i < cut { 'L' } else if i < cut + rng.below(3) { 'E' } else { 'G' } } else { rng.pick(&['L', 'E', 'G']) };
+                pat.push(c);
+            }
+            out.d(format!("LIB bs {}", pat));
+        }
+        // LEB128: every 1- and 2-byte string over boundary bytes, overlong / overflowing / truncated ones
+        let lb: &[u8] = &[0x00, 0x01, 0x02, 0x7f, 0x80, 0x81, 0xff, 0x40, 0xc0];
+        for &a in lb {
+            out.d(format!("LIB leb {}", hx(&[a])));
+            for &b in lb {
+                out.d(format!("LIB leb {}", hx(&[a, b])));
+                out.d(format!("LIB leb {}", hx(&[a, b, 0x01, 0xaa])));
+            }
+        }
+        for k in 1..=12usize {
+            for last in [0x00u8, 0x01, 0x02, 0x7f, 0x80] {
+                let mut v = vec![0x80u8; k - 1];
+                v.push(last);
+                out.d(format!("LIB leb {}", hx(&v)));
+                let mut v = vec![0xffu8; k - 1];
+                v.push(last);
+                v.push(0x33);
+                out.d(format!("LIB leb {}", hx(&v)));
+            }
+        }
+        for _ in 0..(if th { 20000 } else { 2000 }) {
+            let n = rng.below(12);
+            let b: Vec<u8> = (0..n).map(|_| if rng.pct(60) { 0x80 | (rng.next() as u8) } else { rng.next() as u8 & 0x7f }).collect();
+            out.d(format!("LIB leb {}", hx(&b)));
+            out.d(format!("LIB lebw {}", rng.next() >> rng.below(64)));
+        }
+        for n in [0u64, 1, 127, 128, 16383, 16384, 2097151, 2097152, u32::MAX as u64, u64::MAX] {
+            out.d(format!("LIB lebw {}", n));
+        }
+    }
+    out.count("library_mirror_ops");
+}
+
 pub fn gen_c16(rng: &mut Rng, tier: &str, out: &mut Out) {
     let th = thorough(tier);
     let n = if th { 6000 } else { 600 };
@@ -1845,6 +1997,7 @@ pub fn gen_c16(rng: &mut Rng, tier: &str, out: &mut Out) {
 
 pub fn gen_c17(rng: &mut Rng, tier: &str, out: &mut Out) {
     let th = thorough(tier);
+    lib_ops(out, rng, th, "text");
     for t in threshold_traces() {
         out.d(format!("TRC {}", hxs(&t)));
     }
